@@ -24,7 +24,7 @@ PINNED = [
                              "_torch_function_result", "__torch_function__", "from_images", "append", "grid", "grid_",
                              "__len__", "__getitem__", "__iter__", "narrow"]),
     ("image", "Image", ["__init__", "_make_instance", "__deepcopy__", "_torch_function_grid", "_torch_function_result",
-                        "__torch_function__", "batch", "grid", "grid_"]),
+                        "__torch_function__", "batch", "grid", "grid_", "narrow"]),
     ("flow", "FlowFields", ["__init__", "_make_instance", "_make_subitem", "_torch_function_axes", "_torch_function_result",
                             "__torch_function__", "__getitem__", "from_images", "append"]),
     ("flow", "FlowField", ["__init__", "_make_instance", "_torch_function_axes", "_torch_function_result",
